@@ -118,7 +118,7 @@ Print Assumptions C18_outer_spaces_same_tree.
    slice, written with a plus sign or leading zeros (only the number counts: C18_plus_sign_partial, C18_leading_zero_partial
    give atoi); a filter whose inner steps are respelled; a comparison whose literal is another spelling of the same number; a comparison
    with blanks around its operator and inside the parentheses; the same after `..`. *)
-From JP Require Import FiltParse CmpParse QueryParse QuerySpace FiltChain FiltAddr CmpAddr FiltChainAddr SpellText.
+From JP Require Import FiltParse CmpParse LitLeft QueryParse QuerySpace FiltChain FiltAddr CmpAddr FiltChainAddr SpellText.
 Theorem C18_equivalent_spellings_from_text : forall cfg parse_float regex_ok ffun afun regex_match,
   (forall f v w, small v -> ffun f v = Some w -> small w) ->
   (forall f l w, Forall small l -> afun f l = Some w -> small w) ->
@@ -152,7 +152,8 @@ Theorem C18_spellings_that_mean_the_same : forall parse_float regex_match,
   (forall x y, same_step parse_float regex_match x y -> same_step parse_float regex_match (FR x) (FR y)) /\
   (forall i g0 gn g1, same_step parse_float regex_match (FE i) (FES false g0 gn i g1) /\ same_step parse_float regex_match (FN i) (FES true g0 gn i g1)) /\
   (forall g0 d, same_step parse_float regex_match (FQ (unspace_dnf d)) (FQS g0 d)) /\
-  (forall t, same_step parse_float regex_match (FT t) (FT (TP t))).
+  (forall t, same_step parse_float regex_match (FT t) (FT (TP t))) /\
+  (forall i o lit, same_step parse_float regex_match (FQ [[BC i o lit]]) (FQ [[BCL lit (mirror_op o) i]])).
 Proof.
   intros pf rm.
   split; [intros q k; split; [apply same_plain|apply same_rec]; intros lv; apply name_spellings|].
@@ -167,7 +168,8 @@ Proof.
   split; [intros x y H; apply rec_filter_spellings; exact H|].
   split; [intros i g0 gn g1; apply spaced_filter_spellings|].
   split; [intros g0 d; apply spaced_query_spellings|].
-  intros t. apply parenthesised_query_spellings.
+  split; [intros t; apply parenthesised_query_spellings|].
+  intros i o lit. apply literal_left_spellings.
 Qed.
 Print Assumptions C18_spellings_that_mean_the_same.
 
